@@ -80,7 +80,7 @@ func newWorld(cfgIdx int, helpers []Helper) *world {
 	}
 	app.Use(func(c fiber.Ctx) error { return c.Next() })
 	methods := app.Config().RequestMethods
-	app.Add(methods, "/o/:p/*", func(c fiber.Ctx) error {
+	endpoint := func(c fiber.Ctx) error {
 		w.ran.Add(1)
 		_ = vk.Observe(c, "k")
 		_ = c.Subdomains(1)
@@ -100,7 +100,12 @@ func newWorld(cfgIdx int, helpers []Helper) *world {
 		_ = c.Fresh()
 		_ = c.Stale()
 		return w.runHelpers(c)
-	})
+	}
+	app.Add(methods, "/o/:p/*", endpoint)
+	// more route shapes for the matcher (untrusted paths are matched against every pattern of the application)
+	for _, p := range []string{"/api/:version/users/:id?", "/f/:name.:ext", "/d/:from-:to", "/w/*/end", "/g/+/x/:rest?", "/n/:id<int;min(1)>/edit/:tab?"} {
+		app.Add(methods, p, endpoint)
+	}
 	app.Handler()
 	w.app = app
 	return w
@@ -614,7 +619,10 @@ func genReq(t *rapid.T) Req {
 	r := Req{Method: rapid.SampledFrom([]string{"GET", "GET", "GET", "GET", "GET", "POST", "POST", "POST", "HEAD", "HEAD", "PUT", "DELETE", "PATCH", "OPTIONS", "FOO", "PURGE", "get", "G T", ""}).Draw(t, "method"),
 		Target: rapid.SampledFrom([]string{"/o/x/y", "/o/x/y", "/o/x/y", "/o/x/y?a=1&b=2&b=3&n=7", "/o/x/y?a=1&b=2&b=3&n=7", "/o/sub/deep/er?a=%20x", "/o/%41/z%2Fw?a=%zz", "/o/x/", "/o/x/y?n=abc", "/o/x", "/", "/nope", "*", "http://evil.test/o/x/y", "/o/x/y?" + strings.Repeat("k=v&", 40), "/o/\xff\xfe/y", "//o/x/y", "/o/x/y#frag", "o/x/y", "",
 			// percent signs that are not an escape: cut off at the end of the path, alone, followed by non-hex digits
-			"/o/x/y%2", "/o/x/%4", "/o/x/y%", "/o/x/%zz", "/o/x/%2?a=1", "/o/%/y%", "//", "///", "/o/x//"}).Draw(t, "target"),
+			"/o/x/y%2", "/o/x/%4", "/o/x/y%", "/o/x/%zz", "/o/x/%2?a=1", "/o/%/y%", "//", "///", "/o/x//",
+			// paths that nearly match the other patterns: the constant behind a parameter followed by something else, empty values
+			"/api/v1/users2", "/api/v1/users.js", "/api/v1/users", "/api/v1/users/7", "/api/users/users/users", "/f/a.b", "/f/a.", "/f/.b", "/f/a.b.c", "/d/1-2", "/d/-", "/d/a-b-c-",
+			"/w/a/b/end", "/w//end", "/w/end", "/w/a/endend", "/g/a/x", "/g//x/", "/g/a/x/x/x", "/n/7/edit", "/n/0/edit/t", "/n/99999999999999999999/edit", "/n//edit/"}).Draw(t, "target"),
 		Proto: rapid.SampledFrom([]string{"", "", "", "", "", "", "", "", "", "HTTP/1.0", "HTTP/1.0", "HTTP/2.0", "HTTP/000", "XTTP/1.1"}).Draw(t, "proto")}
 	add := func(k string, vals []string) {
 		if rapid.IntRange(0, 3).Draw(t, "has"+k) == 0 {
